@@ -45,6 +45,28 @@ RULES = [
 SRC_OK = 'slice.valid()'
 
 
+def emit_const_transmute(g, ex, panic_props, same_props, span_props):
+    """const_transmute (free fn): panics iff the sizes differ; the union read needs equal sizes and yields the same bytes,
+    i.e. the same element sequence (used by the units views and macros)"""
+    from verus_engine import Fn
+    f = g.extract_free(FILE, 'const_transmute')
+    stats = {}
+    body = ex.normalize(f['body'])
+    n = ex.statements(body)
+    body = ex.apply_rules(body, [
+        ('R-len', r'mem::size_of::<A>\(\)', 'a.size'),
+        ('R-len', r'mem::size_of::<B>\(\)', 'size_b'),
+        ('R-panic', r'panic!\("[^"]*"\);', 'return PanicOr::Panic;'),
+        ('R-misc', r'union Union<A, B> \{ a: ManuallyDrop<A>, b: ManuallyDrop<B>, \} ', ''),
+        ('R-slots', r'let a = ManuallyDrop::new\(a\); ', ''),
+        ('R-ptr', r'ManuallyDrop::into_inner\(Union \{ a \}\.b\)', 'PanicOr::Ret(union_reinterpret(a, size_b))'),
+    ], stats)
+    ex.check_supported('const_transmute', body)
+    g.emit_fn(Fn('const_transmute', FILE, f['line'], f['sig'], 'pub fn const_transmute(a: Bits, size_b: usize) -> (ret: PanicOr<Bits>)', body, [],
+                 [('panics-iff-sizes-differ', panic_props, 'ret is Panic <==> a.size != size_b'),
+                  ('reinterprets-the-same-bytes', same_props, 'ret is Ret ==> ret->Ret_0.size == size_b && ret->Ret_0.elems == a.elems')], stats, n, span_props))
+
+
 def generate(g, ex):
     from verus_engine import Fn
     g.raw('use vstd::prelude::*;\nverus! {\n')
@@ -98,22 +120,7 @@ def generate(g, ex):
             [('never-panics', ['C10'], 'ret is Ret'),
              ('inverse', ['C10'], 'ret->Ret_0.base == slice.base && ret->Ret_0.off == slice.off && ret->Ret_0.stride == 1 && ret->Ret_0.len == slice.len * N::n() && ret->Ret_0.end() == slice.end()')])
 
-    # ---- const_transmute (free fn): panics iff the sizes differ; the union read needs equal sizes ----
-    f = g.extract_free(FILE, 'const_transmute')
-    stats = {}
-    body = ex.normalize(f['body'])
-    n = ex.statements(body)
-    body = ex.apply_rules(body, [
-        ('R-len', r'mem::size_of::<A>\(\)', 'a.size'),
-        ('R-len', r'mem::size_of::<B>\(\)', 'size_b'),
-        ('R-panic', r'panic!\("[^"]*"\);', 'return PanicOr::Panic;'),
-        ('R-misc', r'union Union<A, B> \{ a: ManuallyDrop<A>, b: ManuallyDrop<B>, \} ', ''),
-        ('R-slots', r'let a = ManuallyDrop::new\(a\); ', ''),
-        ('R-ptr', r'ManuallyDrop::into_inner\(Union \{ a \}\.b\)', 'PanicOr::Ret(union_reinterpret(a, size_b))'),
-    ], stats)
-    ex.check_supported('const_transmute', body)
-    g.emit_fn(Fn('const_transmute', FILE, f['line'], f['sig'], 'pub fn const_transmute(a: Bits, size_b: usize) -> (ret: PanicOr<Bits>)', body, [],
-                 [('panics-iff-sizes-differ', ['C02', 'C10', 'C11'], 'ret is Panic <==> a.size != size_b'), ('reinterprets-the-same-bytes', ['C02', 'C11'], 'ret is Ret ==> ret->Ret_0.size == size_b')], stats, n, PROPS))
+    emit_const_transmute(g, ex, ['C02', 'C10', 'C11'], ['C02', 'C11'], PROPS)
 
     # ---- by-reference Split::split (src/sequence.rs): the two adjacent sub-ranges of the original storage, no copy ----
     seq = g.src('src/sequence.rs')
@@ -164,11 +171,13 @@ def generate(g, ex):
     OWN_REQ = ['a.size == N::n() * M::n()  /* M arrays of N elements: extent N*M elements (lemma_nested, unit layout) */']
     flat('Flatten', r'unsafe impl<T, N, M> Flatten<T, N, M> for GenericArray<GenericArray<T, N>, M>\s*where[^{]*\{', 'owned', 'flatten_owned',
          'pub fn flatten_owned<N: ArrayLength, M: ArrayLength>(a: Bits) -> (ret: PanicOr<Bits>)', OWN_REQ + ['N::n() * M::n() <= usize::MAX'],
-         [('never-panics-same-extent', ['C11'], 'ret is Ret && ret->Ret_0.size == N::n() * M::n()')],
+         [('never-panics-same-extent', ['C11'], 'ret is Ret && ret->Ret_0.size == N::n() * M::n()'),
+          ('same-element-sequence', ['C11'], 'ret is Ret ==> ret->Ret_0.elems == a.elems  /* row-major: the M inner arrays lie one after another (lemma_nested, unit layout) */')],
          [('R-call', r'crate::const_transmute\(self\)', 'const_transmute(a, (N::usize_() * M::usize_()))')])
     flat('Unflatten', r'unsafe impl<T, NM, N> Unflatten<T, NM, N> for GenericArray<T, NM>\s*where[^{]*\{', 'owned', 'unflatten_owned',
          'pub fn unflatten_owned<NM: ArrayLength, N: ArrayLength>(a: Bits) -> (ret: PanicOr<Bits>)', ['a.size == NM::n()', 'N::n() > 0', 'NM::n() % N::n() == 0'],
-         [('never-panics-same-extent', ['C11'], 'ret is Ret && ret->Ret_0.size == NM::n()')],
+         [('never-panics-same-extent', ['C11'], 'ret is Ret && ret->Ret_0.size == NM::n()'),
+          ('same-element-sequence', ['C11'], 'ret is Ret ==> ret->Ret_0.elems == a.elems')],
          [('R-call', r'crate::const_transmute\(self\)', '({ proof { vstd::arithmetic::div_mod::lemma_fundamental_div_mod(NM::n() as int, N::n() as int); assert((NM::n() / N::n()) * N::n() == N::n() * (NM::n() / N::n())) by (nonlinear_arith); } const_transmute(a, ((NM::usize_() / N::usize_()) * N::usize_())) })')])
     for form, pref in (('ref', r"&'a "), ('mut', r"&'a mut ")):
         flat('Flatten', r"unsafe impl<'a, T, N, M> Flatten<T, N, M> for " + pref + r"GenericArray<GenericArray<T, N>, M>\s*where[^{]*\{", form, 'flatten_' + form,
